@@ -20,7 +20,8 @@ EXPLANATION = (
     "aligned_size_in_bytes <= declared size else WordSizeMismatch (E380); R6 |:T|: the generator's SizeOf arm computes "
     "the constant from Generator::size_in_bits (LLVMSizeOfTypeInBits on the module's own data layout) of the lowered "
     "type, divided by 8, consults no other size table, and |:bool| = 1 is the only special case; R7 the constness analyzer "
-    "visits every sub-expression of a constant initialiser or rejects the whole expression (function calls, |x|).")
+    "visits every sub-expression of a constant initialiser or rejects the whole expression (function calls, |x|); R8 the "
+    "length of a fixed-size array is LLVMGetArrayLength of the pointee type of its storage address, not a quotient of sizes.")
 
 VT = "alpha::value_type::ValueType::"
 
@@ -286,6 +287,28 @@ def r7_constness_visit(run, F):
                "%s in a constant initialiser is rejected with %s" % (variant, err.split("::")[-1]))
 
 
+def r8_array_len(run, F):
+    """|x| of a fixed-size array is the element count of its LLVM array type (LLVMGetArrayLength), not a quotient of sizes:
+    i1 elements occupy 8 bits each in an array but have a 1-bit type size, empty structs have size 0."""
+    from rules import origins
+    b = F.body("alpha::generator::generate_array_len")
+    cu = [c for c in hirq.calls(b["hir"]) if hirq.callee(c) == "alpha::generator::Generator::const_usize"]
+    run.require(len(cu) == 1, "generate_array_len: expected one const_usize call (found %d)" % len(cu))
+    o = origins.origins(b["hir"], cu[0]["a"][0], b.get("params", ()))
+    calls = sorted(x[1].split("::")[-1] for x in o if x[0] == "call")
+    ok = "LLVMGetArrayLength" in calls and not any(c in ("size_in_bits", "checked_div", "LLVMSizeOfTypeInBits", "LLVMABISizeOfType", "LLVMStoreSizeOfType") for c in calls)
+    divs = [n for n in walk(b["hir"]) if n.get("k") == "Binary" and n.get("op") in ("Div", "Rem")]
+    run.ob("R8-ARRAY-LENGTH-SOURCE", "generate_array_len", ok and not divs, F.where(b, cu[0]),
+           "the length constant must come from LLVMGetArrayLength of the array type behind the address, and from nothing else: %s" % calls,
+           sample={"origins": calls})
+    ga = [c for c in hirq.calls(b["hir"]) if (hirq.callee(c) or "").endswith("LLVMGetArrayLength")]
+    if ga:
+        oa = origins.origins(b["hir"], ga[0]["a"][0], b.get("params", ()))
+        ca = [x[1].split("::")[-1] for x in oa if x[0] == "call"]
+        run.ob("R8-ARRAY-LENGTH-SOURCE", "array type of the address", sorted(ca) == ["LLVMGetElementType", "LLVMTypeOf"] and ("param", "address") in oa, F.where(b, ga[0]),
+               "the array type is the pointee type of the storage address: %s" % sorted(ca))
+
+
 def check(run):
     F = run.facts("B")
     r1_sizes(run, F)
@@ -295,3 +318,4 @@ def check(run):
     r5_word_size(run, F)
     r6_sizeof(run, F)
     r7_constness_visit(run, F)
+    r8_array_len(run, F)
